@@ -1267,6 +1267,17 @@ func preprocessStylesheet(deviceMediaType, baseUrl string, stylesheetRules []pa.
 	urlFetcher utils.UrlFetcher, matcher *matcher, pageRules *[]PageRule,
 	fontConfig text.FontConfiguration, counterStyle counters.CounterStyle, ignoreImports bool,
 ) {
+	preprocessStylesheetImports(deviceMediaType, baseUrl, stylesheetRules, urlFetcher, matcher, pageRules,
+		fontConfig, counterStyle, ignoreImports, nil)
+}
+
+// same as preprocessStylesheet; [importing] is the set of the urls of the
+// style sheets being imported, used to ignore cyclic @import rules
+func preprocessStylesheetImports(deviceMediaType, baseUrl string, stylesheetRules []pa.Compound,
+	urlFetcher utils.UrlFetcher, matcher *matcher, pageRules *[]PageRule,
+	fontConfig text.FontConfiguration, counterStyle counters.CounterStyle, ignoreImports bool,
+	importing utils.Set,
+) {
 	for _, rule := range stylesheetRules {
 		atRule, isAtRule := rule.(pa.AtRule)
 		if _isContentNone(rule) && (!isAtRule || utils.AsciiLower(atRule.AtKeyword) != "import") {
@@ -1332,8 +1343,17 @@ func preprocessStylesheet(deviceMediaType, baseUrl string, stylesheetRules []pa.
 				}
 				url = utils.UrlJoin(baseUrl, url, false, "@import")
 				if url != "" {
-					_, err := newCSS(utils.InputUrl(url), "", urlFetcher, false,
-						deviceMediaType, fontConfig, matcher, pageRules, counterStyle)
+					if importing.Has(url) {
+						logger.WarningLogger.Printf("Cyclic @import of %s was ignored. \n", url)
+						continue
+					}
+					if importing == nil {
+						importing = utils.NewSet()
+					}
+					importing.Add(url)
+					_, err := newCSSImports(utils.InputUrl(url), "", urlFetcher, false,
+						deviceMediaType, fontConfig, matcher, pageRules, counterStyle, importing)
+					delete(importing, url)
 					if err != nil {
 						logger.WarningLogger.Printf("Failed to load stylesheet at %s : %s \n", url, err)
 					}
@@ -1350,9 +1370,9 @@ func preprocessStylesheet(deviceMediaType, baseUrl string, stylesheetRules []pa.
 					continue
 				}
 				contentRules := pa.ParseRuleList(rule.Content, false, false)
-				preprocessStylesheet(
+				preprocessStylesheetImports(
 					deviceMediaType, baseUrl, contentRules, urlFetcher,
-					matcher, pageRules, fontConfig, counterStyle, true)
+					matcher, pageRules, fontConfig, counterStyle, true, importing)
 			case "page":
 				data := parsePageSelectors(rule.QualifiedRule)
 				if data == nil {
